@@ -198,14 +198,22 @@ class _Sink(object):
         self.parts.append(data)
 
 
-class _AsyncSink(object):
-    __slots__ = ('parts',)
+class SinkError(Exception):
+    """The destination of a pipe failed after accepting a chunk (injected fault)."""
 
-    def __init__(self):
+
+class _AsyncSink(object):
+    __slots__ = ('parts', 'fail_at')
+
+    def __init__(self, fail_at=None):
         self.parts = []
+        self.fail_at = fail_at
 
     async def write(self, data):
         self.parts.append(data)
+        if self.fail_at is not None and len(self.parts) >= self.fail_at:
+            self.fail_at = None
+            raise SinkError('destination failed')
 
 
 class _State(object):
@@ -911,11 +919,28 @@ class Hist(object):
                 await self.iterate(reader, cur, depth, st, op)
                 continue
             sink = _AsyncSink() if kind in ('pipe', 'pipe_until') and op[-1 if kind == 'pipe' else 2] else None
+            if sink is not None and depth == 0 and ch.draw(6, 'sink_fails') == 5:
+                sink.fail_at = 1 + ch.draw(3, 'sink_fail_at')
             exp = self.expect(cur, op)
             self.note_expectation(cur, op, exp)
             val = exc = None
             try:
                 val = await self.invoke(reader, op, sink)
+            except SinkError:
+                # the destination failed after accepting a chunk: what it was handed counts as
+                # consumed -- it must be the flat bytes at the cursor, and is never handed out again
+                got = b''.join(sink.parts)
+                want = cur.data[cur.pos:cur.pos + len(got)]
+                ctx.probe('sink_failed')
+                if got != want:
+                    self.violate('conservation', 'pipe handed %r to the destination at cursor %d where the '
+                                 'flat stream has %r' % (got[:40], cur.pos, want[:40]), op=kind,
+                                 after='sink_error')
+                    return st
+                cur.pos += len(got)
+                st.last = kind
+                self.after_sink_error = True
+                continue
             except Exception as ex:
                 exc = type(ex).__name__
             self.judge(cur, depth, st, op, exp, val, exc, sink)
